@@ -213,12 +213,17 @@ static void check_pair(const std::string& a, const std::string& b, const std::st
     // UTS #46 maps code point by code point *before* normalising, so the Standard's own result is not always closed under
     // canonical equivalence (U+1FFC U+0483 vs U+03A9 U+0483 U+0345: U+0345 (ccc 240) maps to U+03B9 (ccc 0)). If an independent
     // UTS46 implementation returns exactly ada's two answers, the difference is the Standard's, recorded as a known finding.
-    bool uts46_same = false;
+    // ICU still produces its converted labels when only the Bidi / ContextJ validity criteria fail. ada has recorded defects in
+    // exactly those two criteria (C06: F5b, F6a, F6b), so it may accept a domain ICU rejects for them; whether the *conversion* of the
+    // two spellings differs in UTS #46 itself is then judged on ICU's labels with those two error bits set aside (suffix in the signature).
+    bool uts46_same = false, masked = false;
     if (classify_unstable(ref::utf8_decode(a)) == 0 && classify_unstable(ref::utf8_decode(b)) == 0) {
       ref::IdnaResult ia = ref::icu_to_ascii(a), ib = ref::icu_to_ascii(b);
-      uts46_same = !ia.harness_error && !ib.harness_error && ia.ok == oa && ib.ok == ob && (!oa || ia.out == ra) && (!ob || ib.out == rb);
+      const uint32_t VALIDITY = UIDNA_ERROR_BIDI | UIDNA_ERROR_CONTEXTJ;
+      auto agrees = [&](const ref::IdnaResult& i, bool o, const std::string& r) { if (i.harness_error) return false; if (!o) return !i.ok; if ((i.errors & ~VALIDITY) != 0) return false; if (i.errors & VALIDITY) masked = true; return i.out == r; };
+      uts46_same = agrees(ia, oa, ra) && agrees(ib, ob, rb);
     }
-    vh::violation(uts46_same ? "known:uts46-itself-distinguishes-the-spellings:" + rel : "equivalent-spellings-differ:" + rel, c, detail);
+    vh::violation(uts46_same ? "known:uts46-itself-distinguishes-the-spellings:" + rel + (masked ? ":on-a-domain-accepted-through-the-known-bidi-or-contextj-defects" : "") : "equivalent-spellings-differ:" + rel, c, detail);
   }
   for (int k = 0; k < 2; k++) {
     const std::string& x = k ? b : a; const std::string& rx = k ? rb : ra; bool ox = k ? ob : oa;
